@@ -1028,3 +1028,16 @@ func init() {
 		return false
 	}
 }
+
+func init() {
+	// context.WithValue without reflectlite
+	externals["context.WithValue"] = func(ex *Exec, fr *frame, a []value) value {
+		parent := a[0].(iface)
+		if parent.t == nil {
+			panic(targetPanic{v: iface{t: ex.runtimeErrorString, v: "cannot create context from nil parent"}, rt: true})
+		}
+		t := ex.namedType("context", "valueCtx")
+		cell := value(structure{parent, a[1], a[2]})
+		return iface{t: types.NewPointer(t), v: &cell}
+	}
+}
